@@ -313,15 +313,22 @@ func genModes(t *rapid.T, c *Case) {
 	c.Placement = rapid.SampledFrom([]string{"global", "global", "function", "eval", "newfunc"}).Draw(t, "placement")
 }
 
-func tooManyHangs(t *rapid.T) {
+// tooManyHangs: after three cases that did not come back within 20 s (a native operation that cannot be
+// interrupted is still running in an abandoned goroutine and competes for the CPU) the remaining cases of this
+// process are not run. They are counted as excluded; nothing is claimed about them.
+func tooManyHangs(t *rapid.T) bool {
 	if atomic.LoadInt32(&hangs) >= 3 {
-		t.Skip("too many hangs in this process; remaining cases skipped (inconclusive)")
+		evid.Excluded("not run: three earlier cases of this shard hung in a non-interruptible native operation (inconclusive)")
+		return true
 	}
+	return false
 }
 
 func TestQuickL1(t *testing.T) {
 	evid.Check(t, "L1", 36000, 5, func(t *rapid.T) {
-		tooManyHangs(t)
+		if tooManyHangs(t) {
+			return
+		}
 		kinds := map[string]int{}
 		c := &Case{Layer: "L1", Prelude: true}
 		if rapid.IntRange(0, 9).Draw(t, "deepsel") == 0 {
@@ -339,7 +346,9 @@ func TestQuickL1(t *testing.T) {
 
 func TestQuickL2(t *testing.T) {
 	evid.Check(t, "L2", 36000, 5, func(t *rapid.T) {
-		tooManyHangs(t)
+		if tooManyHangs(t) {
+			return
+		}
 		base := jsgen.GenProgram(t, &jsgen.SynOpts{MaxDepth: rapid.IntRange(2, 4).Draw(t, "depth")})
 		other := jsgen.GenProgram(t, &jsgen.SynOpts{MaxDepth: 2})
 		c := &Case{Layer: "L2", Prelude: true, Src: []byte(jsgen.Mutate(t, base, other))}
@@ -352,7 +361,9 @@ func TestQuickL2(t *testing.T) {
 
 func TestQuickL3(t *testing.T) {
 	evid.Check(t, "L3", 24000, 5, func(t *rapid.T) {
-		tooManyHangs(t)
+		if tooManyHangs(t) {
+			return
+		}
 		c := &Case{Layer: "L3", Prelude: rapid.Bool().Draw(t, "prelude"), Src: jsgen.GenBytes(t)}
 		genModes(t, c)
 		f, st := judge(c)
